@@ -18,7 +18,7 @@
 (*   hdr     "alg1" | "alg2" | "foreign" | "absent" | "notbytes"           *)
 (*           (alg1 = H's algorithm; M's algorithm is the constant MAlg)    *)
 (*   tag     "dlg" | "inv" | "ucan/x" | "nonucan"                          *)
-(*   extra   "none" | "third" | "twotags" | "twoheaders"  extra entries in *)
+(*   extra   "none" | "third" (a third key) | "twotags" (a second ucan/ key)  *)
 (*           the signed map                                                *)
 (*   pl      field -> class, classes: "ok" (as sealed), "ok2" (another     *)
 (*           valid value), "absent", "null", "wrongkind", "bad" (invalid   *)
@@ -157,7 +157,7 @@ SetHdr   == Can /\ \E h \in {"alg1", "alg2", "foreign", "absent", "notbytes"} : 
               /\ w' = [w EXCEPT !.hdr = h] /\ ops' = Append(ops, Op("sethdr", h, "")) /\ UNCHANGED res
 SetTag   == Can /\ \E t \in {"dlg", "inv", "ucan/x", "nonucan"} : t # w.tag
               /\ w' = [w EXCEPT !.tag = t] /\ ops' = Append(ops, Op("settag", t, "")) /\ UNCHANGED res
-SetExtra == Can /\ \E e \in {"third", "twotags", "twoheaders"} : e # w.extra
+SetExtra == Can /\ \E e \in {"third", "twotags"} : e # w.extra
               /\ w' = [w EXCEPT !.extra = e] /\ ops' = Append(ops, Op("extra", e, "")) /\ UNCHANGED res
 SetOuter == Can /\ \E o \in {"list3", "list1", "map"} : o # w.outer
               /\ w' = [w EXCEPT !.outer = o] /\ ops' = Append(ops, Op("outer", o, "")) /\ UNCHANGED res
